@@ -1028,6 +1028,10 @@ func freeHistory(r *rand.Rand, hi int, res *vio.Result, perEndMin, perEndMax, no
 			if profile == 1 {
 				k = nops
 			}
+			if n >= 4 && k > 2 {
+				// many goroutines x many calls makes the number of interleavings TLC has to infer explode
+				k = 2
+			}
 			scripts[fmt.Sprintf("%s%d", e, i)] = genScript(r, k, maxW, profile)
 		}
 	}
@@ -1042,10 +1046,18 @@ func freeHistory(r *rand.Rand, hi int, res *vio.Result, perEndMin, perEndMax, no
 				delays[i] = time.Duration(r.IntN(150)) * time.Microsecond
 			}
 		}
+		// at most a handful of goroutines leave at the starting gun, the others join a little later
+		var late time.Duration
+		if len(ops) > 3 {
+			late = time.Duration(30+r.IntN(300)) * time.Microsecond
+		}
 		go func() {
 			defer o.done.Store(true)
 			o.gid.Store(goid())
 			<-gun
+			if late > 0 {
+				time.Sleep(late)
+			}
 			for i, s := range sc {
 				if delays[i] > 0 {
 					time.Sleep(delays[i])
